@@ -521,6 +521,10 @@ class Interp:
             return v
         if isinstance(v, PathVal):
             return PathVal(v.path)
+        if isinstance(v, BoolVal) and e.get("ty") in ("u8", "u16", "u32", "u64", "usize"):
+            return v.ind                      # `flag as usize`: 1 when the flag holds
+        if isinstance(v, bool) and e.get("ty") in ("u8", "u16", "u32", "u64", "usize"):
+            return Poly.const(int(v))
         return v
 
     def e_Adt(self, fr, e):
@@ -1081,6 +1085,12 @@ class Interp:
                 return UNIT
             raise Unsupported("%s over %r" % (name, src))
         if name in ("from", "into") and len(args) == 1:
+            if (args[0].get("ty") or "").lstrip("&") == "bool" and (e.get("ty") or "") in ("u8", "u16", "u32", "u64", "usize"):
+                bv = self.eval(fr, args[0])
+                if isinstance(bv, BoolVal):
+                    return bv.ind                   # `usize::from(flag)`: 1 when the flag holds
+                if isinstance(bv, bool):
+                    return Poly.const(int(bv))
             if (args[0].get("ty") or "").lstrip("&") in ("u8", "u16", "u32", "u64", "usize"):
                 return self.eval(fr, args[0])       # integer widening: problems inside are problems of the length
             return self.eval_quiet(fr, args[0])
